@@ -7,7 +7,7 @@ import tempfile
 
 from sfv.framework import Ctx, Property
 from sfv.rt import wfcheck, wfgen
-from sfv.translate import provguards
+from sfv.translate import provrowguards
 
 
 KNOWN_POSITIONAL = "job-pipeline-pairs-jobs-with-inputs-by-position:input-ports-deliver-tags-in-different-orders"
@@ -94,7 +94,7 @@ class C07(Property):
     lean_targets = ["SFV.Model.Exec", "SFV.Model.TfMachine", "SFV.Model.LoopComb", "SFV.Model.LoopNet", "SFV.Gen.StepGuards", "SFV.Props.C07", "SFV.Props.C07Net", "SFV.Props.C07Guards"]
     props_files = ["SFV/Props/C07.lean", "SFV/Props/C07Net.lean", "SFV/Props/C07Guards.lean"]
     drivers = ["Drivers/Net.lean"]
-    translators = [provguards.generate]
+    translators = [provrowguards.generate]
     rule = ("the token and provenance tables of the SQLite database are dumped after every run of random well-formed DAG workflows "
             "(sfv.rt.wfgen, real step classes incl. job pipelines) under the default order and 1 (quick) / 3 (thorough) PRNG interleavings; "
             "one third of the workflows with an injected transformer failure (table-level checks only). Checked per run: dependee id < "
@@ -107,8 +107,8 @@ class C07(Property):
     trusted_base = [
         "hand-written model lean/SFV/Model/Net.lean `nodeProv` (which inputs each step class passes to _persist_token) compared with the "
         "real provenance table on every run; persistence log model lean/SFV/Model/Prov.lean",
-        "translator harness/sfv/translate/provguards.py (row orientation of add_provenance, save-before-provenance and the None check "
-        "of _persist_token -> SFV/Gen/ProvGuards.lean)",
+        "translator harness/sfv/translate/provrowguards.py (row orientation of add_provenance, save-before-provenance and the None check "
+        "of _persist_token -> SFV/Gen/ProvRowGuards.lean)",
         "modelled, not verified: SQLite INTEGER PRIMARY KEY ids are larger than every id in use (rows are never deleted here); "
         "aiosqlite executes statements in order",
         "job pipelines: edges through the internal schedule/transfer ports are checked generically (ids, acyclicity, job token + inputs), "
